@@ -275,6 +275,19 @@ pub fn check_draws(prop: &str, cfg: &ChainCfg, h: &History, out: &mut RunOutcome
                     }
                 }
             }
+            // the start state of every trajectory is the previous draw *as the current transformation sees it*:
+            // all states of a trajectory are related to their whitened coordinates by one affine map
+            if !d.tap.is_empty() {
+                for seg in crate::refnuts::split_trajectories(&d.tap) {
+                    match crate::refnuts::affine_consistency(seg) {
+                        Ok(k) => out.probe("affine_identities_checked", k),
+                        Err(msg) => {
+                            out.violate(format!("C03/trajectory_start_inconsistent_with_transformation/{pname}"), format!("draw {i}: {msg}"));
+                            return;
+                        }
+                    }
+                }
+            }
             // the next trajectory starts from this draw: for a diagonal transformation with reported
             // scales the first leapfrog position is predicted from (previous draw, its gradient, the
             // momentum seen at the seam, the step size in force, the scales in force)
